@@ -90,12 +90,14 @@ Theorem C09_commit_inv :
 Proof. exact commit_inv. Qed.
 Print Assumptions C09_commit_inv.
 
-(** Unless a valid renter signature is delivered, roots, revision and balances are exactly
-    as before: stopping after any message, closing the stream, sending a bad signature or
-    any other message sequence is a no-op on the contractor state. *)
+(** Unless a valid renter signature is delivered (or an account-paid request that is valid
+    and names a stored sector), roots, revision and balances are exactly as before: stopping
+    after any message, closing the stream, sending a bad signature, reading or verifying a
+    sector the host does not store, an invalid account request, or any other message
+    sequence is a no-op on the contractor state. *)
 Theorem C09_abort_is_noop :
   ∀ (evs : list event) (s : hst),
-    Forall (λ e, ¬ carries_valid_sig e) evs → hs_host (exec Copied s evs) = hs_host s.
+    Forall (λ e, ¬ may_commit e) evs → hs_host (exec Copied s evs) = hs_host s.
 Proof. exact abort_is_noop. Qed.
 Print Assumptions C09_abort_is_noop.
 
@@ -104,7 +106,7 @@ Print Assumptions C09_abort_is_noop.
     revision. Finding F6, kept as documentation of the repaired defect. *)
 Theorem C09_abort_prefix_refuted :
   ∃ (h : host) (evs : list event),
-    committed_ok h ∧ Forall (λ e, ¬ carries_valid_sig e) evs ∧
+    committed_ok h ∧ Forall (λ e, ¬ may_commit e) evs ∧
     h_roots h = [1; 2; 3]%N ∧
     h_roots (hs_host (exec Shared (init h) evs)) = [3; 2; 3]%N ∧
     h_rev (hs_host (exec Shared (init h) evs)) = h_rev h ∧
@@ -186,3 +188,14 @@ Theorem C09_listing_verifies :
         (build_range_proof (length (h_roots h)) (h_roots h) off len) = true.
 Proof. exact listing_verifies. Qed.
 Print Assumptions C09_listing_verifies.
+
+(** The account-paid RPCs (read, verify, write) touch nothing but the account balance; they
+    debit exactly the cost, and only when the request is valid, the sector is stored and the
+    balance suffices — otherwise the contractor state is exactly as before. *)
+Theorem C09_account_rpc_model :
+  ∀ (h : host) (valid has : bool) (cost : N),
+    do_acct h valid has cost =
+    (if valid && has && (cost <=? h_account h)%N
+     then Some (mk_host (h_roots h) (h_rev h) (h_account h - cost)) else None).
+Proof. exact account_rpc_model. Qed.
+Print Assumptions C09_account_rpc_model.
